@@ -110,6 +110,12 @@ NestExprs == {S1("ScalL", "flt", R(4097, 4096), S1("ScalL", "flt", R(4097, 4096)
               S1("ScalL", "dbl", R(4097, 4096), S1("ScalL", "flt", R(4097, 4096), Xn(1)))}
 FpBFOps == {Id, Dn(1), Xn(1), B2("Sum", S1("ScalL", "T", R(-1, 2), Dn(2)), SplLeaf)}
 
+\* both operators of one C++ type but in different states, evaluated on the very same spline object (bf(s, s))
+FpSamePairs == {<<S1("ScalL", "T", FromInt(4), Dn(1)), S1("ScalL", "T", R(1, 4), Dn(1))>>,
+                <<S1("ScalL", "T", R(1, 2), Xn(1)), S1("ScalL", "T", FromInt(3), Xn(1))>>,
+                <<S1("AddSR", "T", ROne, Dn(1)), S1("AddSR", "T", FromInt(-2), Dn(1))>>,
+                <<Dn(1), Dn(1)>>}
+
 RECURSIVE HasSpl(_)
 HasSpl(op) == CASE op.k = "Spl" -> TRUE
                 [] op.k \in {"Id", "X", "Dx"} -> FALSE
@@ -138,7 +144,7 @@ SplsOn(g) == {FpSpl(S, o, 0) : S \in SupportsOn(g), o \in (IF g = F5 THEN 0..1 E
 BigSplsOn(g) == {FpSpl(S, o, v) : S \in {SupWhole(g), Sup(g, 1, Len(g)), Sup(g, 0, 2)}, o \in (IF g = F5 THEN 0..1 ELSE Ops3), v \in {0, 1}}
 Factor(g) == FpSpl(Sup(g, 1, Len(g)), 1, 2)
 
-KnotSets == {Q(<<0, 2, 4, 6>>), Q(<<-7, -4, 0, 1>>), <<R(0, 1), R(1, 2), R(1, 1), R(3, 1)>>}
+KnotSets == {Q(<<0, 2, 4, 6>>), Q(<<-7, -1, 1, 4>>), <<R(0, 1), R(1, 2), R(1, 1), R(3, 1)>>}
 RECURSIVE ND(_, _, _)
 ND(L, lo, n) == IF L = 0 THEN {<<>>} ELSE UNION {{<<v>> \o s : s \in ND(L - 1, v, n)} : v \in lo..n}
 FpKnots == {k \in UNION {UNION {{[i \in 1..L |-> V[s[i]]] : s \in ND(L, 1, Len(V))} : L \in 3..(IF Thorough THEN 7 ELSE 6)} : V \in KnotSets} :
@@ -178,6 +184,9 @@ SplCases(a) ==
            {[op |-> "FpBF", e1 |-> e1, e2 |-> e2, a |-> a, b |-> b, fs |-> <<Factor(g)>>,
              E |-> BilinearI(e1, e2, a, b, <<Factor(g)>>), S |-> BilinearAbs(e1, e2, a, b, <<Factor(g)>>)] :
               e1 \in FpBFOps, e2 \in FpBFOps, b \in {x \in BigSplsOn(g) : x.o <= 2}}
+           \cup {[op |-> "FpBF", e1 |-> pr[1], e2 |-> pr[2], a |-> a, b |-> a, sameobj |-> 1, fs |-> <<Factor(g)>>,
+                   E |-> BilinearI(pr[1], pr[2], a, a, <<Factor(g)>>), S |-> BilinearAbs(pr[1], pr[2], a, a, <<Factor(g)>>)] :
+                    pr \in FpSamePairs}
            ELSE {})
      \cup (IF ~IntGrid(g) THEN {} ELSE
            UNION {{[op |-> "FpInt", n |-> n, w |-> w, a |-> a, b |-> b,
